@@ -346,7 +346,7 @@ impl Mapper<Size1GiB> for RecursivePageTable<'_> {
             return Err(UnmapError::ParentEntryHugePage);
         }
 
-        let frame = PhysFrame::from_start_address(p3_entry.addr())
+        let frame = PhysFrame::from_start_address(huge_page_addr(p3_entry))
             .map_err(|AddressNotAligned| UnmapError::InvalidFrameAddress(p3_entry.addr()))?;
 
         p3_entry.set_unused();
@@ -374,7 +374,8 @@ impl Mapper<Size1GiB> for RecursivePageTable<'_> {
         if !p3[page.p3_index()].flags().contains(Flags::HUGE_PAGE) {
             return Err(FlagUpdateError::PageNotMapped);
         }
-        p3[page.p3_index()].set_flags(flags | Flags::HUGE_PAGE);
+        let addr = huge_page_addr(&p3[page.p3_index()]);
+        p3[page.p3_index()].set_addr(addr, flags | Flags::HUGE_PAGE);
 
         Ok(MapperFlush::new(page))
     }
@@ -430,7 +431,7 @@ impl Mapper<Size1GiB> for RecursivePageTable<'_> {
             return Err(TranslateError::PageNotMapped);
         }
 
-        PhysFrame::from_start_address(p3_entry.addr())
+        PhysFrame::from_start_address(huge_page_addr(p3_entry))
             .map_err(|AddressNotAligned| TranslateError::InvalidFrameAddress(p3_entry.addr()))
     }
 }
@@ -488,7 +489,7 @@ impl Mapper<Size2MiB> for RecursivePageTable<'_> {
             return Err(UnmapError::ParentEntryHugePage);
         }
 
-        let frame = PhysFrame::from_start_address(p2_entry.addr())
+        let frame = PhysFrame::from_start_address(huge_page_addr(p2_entry))
             .map_err(|AddressNotAligned| UnmapError::InvalidFrameAddress(p2_entry.addr()))?;
 
         p2_entry.set_unused();
@@ -526,7 +527,8 @@ impl Mapper<Size2MiB> for RecursivePageTable<'_> {
             return Err(FlagUpdateError::PageNotMapped);
         }
 
-        p2[page.p2_index()].set_flags(flags | Flags::HUGE_PAGE);
+        let addr = huge_page_addr(&p2[page.p2_index()]);
+        p2[page.p2_index()].set_addr(addr, flags | Flags::HUGE_PAGE);
 
         Ok(MapperFlush::new(page))
     }
@@ -611,7 +613,7 @@ impl Mapper<Size2MiB> for RecursivePageTable<'_> {
             return Err(TranslateError::PageNotMapped);
         }
 
-        PhysFrame::from_start_address(p2_entry.addr())
+        PhysFrame::from_start_address(huge_page_addr(p2_entry))
             .map_err(|AddressNotAligned| TranslateError::InvalidFrameAddress(p2_entry.addr()))
     }
 }
